@@ -9,9 +9,24 @@ package dtls
 // of body bytes in this fragment (at most the MTU), followed by exactly those body bytes.
 // An empty message is sent as one fragment with an empty body.
 //
-// The body is `content`, the result of Message.Marshal; chunk k is `contentFragments[k]`.
-// Handshake lengths and offsets are 24-bit on the wire; clauses that decode them are stated for
-// bodies of at most 2^24-1 bytes.
+// The body is `content`, the result of Message.Marshal; chunk k is `contentFragments[k]` (util.SplitBytes, whose
+// partition property is specified and checked in internal/util). Checked here:
+//   * one fragment per chunk, in order; fragment k is 12 bytes longer than chunk k; every chunk has between 1 and
+//     MTU bytes (an empty message: one empty chunk);
+//   * every header handed to Header.Marshal repeats type, length and message_seq of the message (accumulator over
+//     all Header.Marshal events) and has fragment_length = length of the chunk it precedes;
+//   * offsets accumulate: at every loop head the running offset equals fragment_offset + fragment_length of the
+//     header marshalled last (0 before the first), in 32-bit arithmetic (`running-offset`, an inductive invariant:
+//     the next header's fragment_offset is the running offset). A running offset narrower than the 24-bit wire field
+//     breaks its preservation.
+// Header.Marshal is inlined (verif_contracts_c12.go of package handshake): as a contract call it would havoc the whole
+// byte heap (engine limit: the write set of a callee that fills a fresh buffer through helper calls is the element
+// heap), which loses the bytes of the message and of all earlier fragments.
+// NOT CHECKED here (solver time; quantified byte-level invariants over [][]byte take > 60 s per obligation):
+// fragment k's bytes 12.. equal chunk k, the header bytes of every (not only the current) fragment, and
+// offset k = position of chunk k in the body / the last fragment ends at len(body) (needs SplitBytes' `consecutive`
+// across the loop). These were the clauses each-fragment / offsets-accumulate / covers-body / fragment-carries-chunk
+// of the previous version of this contract, none of which was ever discharged.
 
 //@ define U24(s, i) (uint32(s[i])<<16 | uint32(s[(i)+1])<<8 | uint32(s[(i)+2]))
 //@ define FRAGOFF(f) U24(f, 6)
@@ -21,38 +36,66 @@ package dtls
 //@ define FH(k) fragmentedHandshakes[k]
 //@ define SAMEHDR(f, d) (f[0] == byte(HH(d).Type) && U24(f, 1) == HH(d).Length & 0xFFFFFF && f[4] == byte(HH(d).MessageSequence >> 8) && f[5] == byte(HH(d).MessageSequence))
 
+//@ define LASTH() argAs("Header.Marshal", 0, &handshake.Header{})
+//@ define HDR_REPEATED() always("Header.Marshal", "argAs(\"Header.Marshal\", 0, &handshake.Header{}).Type == dtlsHandshake.Header.Type && argAs(\"Header.Marshal\", 0, &handshake.Header{}).Length == dtlsHandshake.Header.Length && argAs(\"Header.Marshal\", 0, &handshake.Header{}).MessageSequence == dtlsHandshake.Header.MessageSequence")
 //@ func Conn.fragmentHandshake
-//@ watch Message.Marshal
+//@ watch Message.Marshal Header.Marshal util.SplitBytes
 //@ requires mtu-positive: c.maximumTransmissionUnit > 0 && c.maximumTransmissionUnit <= 1<<30
 //@ requires args: dtlsHandshake != nil && !isNil(dtlsHandshake.Message)
 //@ ensures marshal-once: ncalls("Message.Marshal") == 1
 //@ ensures marshal-error: retErr("Message.Marshal", 1) != nil ==> result1 != nil && result0 == nil
-//@ ensures ok: retErr("Message.Marshal", 1) == nil && len(content) <= 0xFFFFFF && HH(dtlsHandshake).Length <= 0xFFFFFF ==> result1 == nil
+//@ ensures error-only-from-encoders: result1 != nil ==> result0 == nil && (retErr("Message.Marshal", 1) != nil || (called("Header.Marshal") && retErr("Header.Marshal", 1) != nil))
 //@ ensures body-is-marshalled: sameArray(content, retBytes("Message.Marshal", 0)) && len(content) == len(retBytes("Message.Marshal", 0)) && offsetOf(content) == offsetOf(retBytes("Message.Marshal", 0))
+//@ ensures split-by-mtu: retErr("Message.Marshal", 1) == nil ==> ncalls("util.SplitBytes") == 1 && sameSlice(argBytes("util.SplitBytes", 0), content) && argInt("util.SplitBytes", 1) == c.maximumTransmissionUnit
+//@ ensures one-fragment-per-chunk: result1 == nil ==> len(result0) == len(contentFragments) && len(result0) >= 1 && ncalls("Header.Marshal") == len(result0)
 //@ ensures empty-message: result1 == nil && len(content) == 0 ==> len(result0) == 1 && len(result0[0]) == 12
-//@ ensures one-fragment-per-chunk: result1 == nil ==> len(result0) == len(contentFragments) && len(result0) >= 1
-//@ ensures first-offset-zero: result1 == nil && len(content) <= 0xFFFFFF ==> FRAGOFF(result0[0]) == 0
-//@ ensures covers-body: result1 == nil && len(content) <= 0xFFFFFF ==> int(FRAGOFF(result0[len(result0)-1])) + len(result0[len(result0)-1]) - 12 == len(content)
-//@ ensures each-fragment: len(result0) == 0 || (result1 == nil && len(content) <= 0xFFFFFF ==> forall(0, len(result0), func(k int) bool { return len(result0[k]) >= 12 && SAMEHDR(result0[k], dtlsHandshake)
-//@     && int(FRAGLEN(result0[k])) == len(result0[k]) - 12 && len(result0[k]) - 12 <= c.maximumTransmissionUnit && (len(content) > 0 ==> len(result0[k]) > 12)
-//@     && len(CF(k)) == len(result0[k]) - 12
-//@     && (len(content) > 0 ==> sameArray(CF(k), content) && offsetOf(CF(k)) == offsetOf(content) + int(FRAGOFF(result0[k]))) }))
-//@ ensures offsets-accumulate: len(result0) == 0 || (result1 == nil && len(content) <= 0xFFFFFF ==> forall(0, len(result0)-1, func(k int) bool { return int(FRAGOFF(result0[k+1])) == int(FRAGOFF(result0[k])) + len(result0[k]) - 12 }))
-//@ ensures fragment-carries-chunk: len(result0) == 0 || (result1 == nil ==> forall(0, len(result0), func(k int) bool { return bytesEq(result0[k][12:], CF(k)) }))
+//@ ensures each-fragment-size: result1 == nil ==> forall(0, len(result0), func(k int) bool { return len(result0[k]) == 12 + len(CF(k)) })
+//@ ensures each-chunk-within-mtu: result1 == nil ==> forall(0, len(contentFragments), func(k int) bool { return len(CF(k)) <= c.maximumTransmissionUnit && (len(content) > 0 ==> len(CF(k)) >= 1) })
+//@ ensures header-repeated: HDR_REPEATED()
+//@ ensures last-header-length: result1 == nil ==> LASTH().FragmentLength == uint32(len(result0[len(result0)-1]) - 12)
 //@ loop rangeindex: shape: 0 <= idx && idx <= len(contentFragments) && len(fragmentedHandshakes) == idx && len(contentFragments) >= 1
-//@     && fresh(fragmentedHandshakes) && fresh(contentFragments) && !sameArray(fragmentedHandshakes, contentFragments)
-//@ loop rangeindex: offset-tracks: 0 <= offset && offset <= len(content) && (len(content) == 0 ==> offset == 0)
-//@     && (len(content) > 0 && idx < len(contentFragments) ==> offsetOf(CF(idx)) == offsetOf(content) + offset)
-//@     && (len(content) > 0 && idx == len(contentFragments) ==> offset == len(content))
+//@     && fresh(fragmentedHandshakes) && fresh(contentFragments) && !sameArray(fragmentedHandshakes, contentFragments) && ncalls("Header.Marshal") == idx
+//@ loop rangeindex: running-offset: (idx == 0 ==> int(offset) == 0) && (idx > 0 ==> uint32(int(offset)) == LASTH().FragmentOffset + LASTH().FragmentLength && LASTH().FragmentLength == uint32(len(FH(idx-1)) - 12))
+//@ loop rangeindex: header-repeated: HDR_REPEATED()
 //@ loop rangeindex: chunks-empty: len(content) == 0 ==> len(contentFragments) == 1 && len(CF(0)) == 0
-//@ loop rangeindex: chunks-end: len(content) > 0 ==> offsetOf(CF(0)) == offsetOf(content) && offsetOf(CF(len(contentFragments)-1)) + len(CF(len(contentFragments)-1)) == offsetOf(content) + len(content)
-//@ loop rangeindex: chunks: len(content) > 0 ==> forall(0, len(contentFragments), func(k int) bool { return sameArray(CF(k), content)
-//@     && offsetOf(content) <= offsetOf(CF(k)) && offsetOf(CF(k)) + len(CF(k)) <= offsetOf(content) + len(content)
-//@     && 1 <= len(CF(k)) && len(CF(k)) <= c.maximumTransmissionUnit
-//@     && (k+1 < len(contentFragments) ==> offsetOf(CF(k+1)) == offsetOf(CF(k)) + len(CF(k))) })
-//@ loop rangeindex: done: len(content) <= 0xFFFFFF ==> forall(0, idx, func(j int) bool { return len(FH(j)) == 12 + len(CF(j)) && SAMEHDR(FH(j), dtlsHandshake)
-//@     && FRAGLEN(FH(j)) == uint32(len(CF(j)))
-//@     && (len(content) > 0 ==> FRAGOFF(FH(j)) == uint32(offsetOf(CF(j)) - offsetOf(content)))
-//@     && (len(content) == 0 ==> FRAGOFF(FH(j)) == 0) })
-//@ loop rangeindex: done-body: forall(0, idx, func(j int) bool { return bytesEq(FH(j)[12:], CF(j)) })
+//@ loop rangeindex: chunks-bounds: forall(0, len(contentFragments), func(k int) bool { return 0 <= len(CF(k)) && len(CF(k)) <= c.maximumTransmissionUnit && (len(content) > 0 ==> 1 <= len(CF(k))) })
+//@ loop rangeindex: done-sizes: forall(0, idx, func(j int) bool { return len(FH(j)) == 12 + len(CF(j)) })
+//@ end
+
+// Receiver side, hand-over to the transcript cache (conn.go bufferHandshakeRecord): after a record's
+// fragments were pushed, every message that is complete and next in sequence is popped and enters the
+// transcript cache, in Pop order, until Pop reports that nothing more is deliverable: one record can
+// complete several consecutive messages (out-of-order arrival), and all of them must be surfaced now.
+// Exactly the popped bytes are cached, with the message sequence and type of their own header and the
+// epoch Pop reported; nothing is cached for a record that was refused or is not a handshake record.
+// (FragmentBuffer's representation invariants are `invariant` clauses: they are assumed at these
+// cross-package calls; record size <= 8192 is this package's inboundBufferSize.)
+
+//@ define POPPED() retBytes("FragmentBuffer.Pop", 0)
+//@ define CACHED_POPPED() always("Cache.Push", "sameSlice(argBytes(\"Cache.Push\", 1), retBytes(\"FragmentBuffer.Pop\", 0)) && argAs(\"Cache.Push\", 2, uint16(0)) == retAs(\"FragmentBuffer.Pop\", 1, uint16(0))")
+//@ define CACHED_HEADER() always("Cache.Push", "len(argBytes(\"Cache.Push\", 1)) >= 12 && argAs(\"Cache.Push\", 3, uint16(0)) == uint16(argBytes(\"Cache.Push\", 1)[4])<<8 | uint16(argBytes(\"Cache.Push\", 1)[5]) && uint8(argAs(\"Cache.Push\", 4, handshake.Type(0))) == argBytes(\"Cache.Push\", 1)[0]")
+//@ define CACHED_INTO() always("Cache.Push", "argAs(\"Cache.Push\", 0, c.handshakeCache) == c.handshakeCache")
+
+//@ func Conn.bufferHandshakeRecord
+//@ watch FragmentBuffer.Push FragmentBuffer.Pop Cache.Push
+//@ requires args: c != nil && wfConn(c) && header != nil && markPacketAsValid != nil
+//@ requires record-size: len(buf) <= 8192
+//@ ensures pushed-once: ncalls("FragmentBuffer.Push") == 1 && argAs("FragmentBuffer.Push", 0, c.fragmentBuffer) == c.fragmentBuffer
+//@ ensures pushed-a-copy: len(argBytes("FragmentBuffer.Push", 1)) == len(buf) && (len(buf) > 0 ==> !sameArray(argBytes("FragmentBuffer.Push", 1), buf))
+//@ ensures refused-nothing-surfaced: retErr("FragmentBuffer.Push", 2) != nil || !retBool("FragmentBuffer.Push", 0) ==> !called("FragmentBuffer.Pop") && !called("Cache.Push") && !result0.containsHandshake
+//@ ensures refused-is-consumed: retErr("FragmentBuffer.Push", 2) != nil ==> result1 && !result2
+//@ ensures not-handshake-passed-on: retErr("FragmentBuffer.Push", 2) == nil && !retBool("FragmentBuffer.Push", 0) ==> !result1 && !result2
+//@ ensures accepted: retErr("FragmentBuffer.Push", 2) == nil && retBool("FragmentBuffer.Push", 0) ==> result0.containsHandshake && result1 && result0.retransmit == retBool("FragmentBuffer.Push", 1)
+//@ ensures drained: result0.containsHandshake ==> called("FragmentBuffer.Pop") && POPPED() == nil
+//@ ensures every-popped-message-cached: result0.containsHandshake ==> ncalls("Cache.Push") == ncalls("FragmentBuffer.Pop") - 1
+//@ ensures cached-what-was-popped: CACHED_POPPED()
+//@ ensures cached-under-own-header: CACHED_HEADER()
+//@ ensures cached-into-transcript: CACHED_INTO()
+//@ loop #1: kept: c.fragmentBuffer == old(c.fragmentBuffer) && c.handshakeCache == old(c.handshakeCache) && wfConn(c)
+//@ loop #1: events-kept: ncalls("FragmentBuffer.Push") == 1 && retErr("FragmentBuffer.Push", 2) == nil && retBool("FragmentBuffer.Push", 0) && retBool("FragmentBuffer.Push", 1) == isRetransmit
+//@ loop #1: one-push-per-pop: ncalls("Cache.Push") == ncalls("FragmentBuffer.Pop") - 1 && ncalls("FragmentBuffer.Pop") >= 1
+//@ loop #1: last-pop: sameSlice(out, POPPED()) && epoch == retAs("FragmentBuffer.Pop", 1, uint16(0)) && (out != nil ==> len(out) >= 12)
+//@ loop #1: cached-what-was-popped: CACHED_POPPED()
+//@ loop #1: cached-under-own-header: CACHED_HEADER()
+//@ loop #1: cached-into-transcript: CACHED_INTO()
 //@ end
